@@ -21,16 +21,16 @@ Proof. exact format_solution_spec. Qed.
 
 (* The answer sequence of a query ends: after the first request without answer nothing more
    comes (multiplicity is not inflated by re-asking). *)
-Theorem C01_partial_sequence_ends : forall kb fuel nd w nd' c w',
-  next kb fuel nd w = Ok (nd', None, c, w') ->
+Theorem C01_partial_sequence_ends : forall kb bf fuel nd w nd' c w',
+  next kb bf fuel nd w = Ok (nd', None, c, w') ->
   forall m fuel2 w2 rs nd2 w3,
-    ask_again kb fuel2 m nd' w2 = Ok (rs, nd2, w3) ->
+    ask_again kb bf fuel2 m nd' w2 = Ok (rs, nd2, w3) ->
     Forall (fun r => r = None) rs /\ w3 = w2.
 Proof. exact exhausted_stays_exhausted. Qed.
 
 (* A call never lets a cut escape: alternatives of the caller are never pruned by a callee. *)
-Theorem C01_partial_calls_are_opaque : forall kb fuel t ss nobt child idx n w nd' r c w',
-  next kb fuel (NCall t ss nobt child idx n) w = Ok (nd', r, c, w') -> c = false.
+Theorem C01_partial_calls_are_opaque : forall kb bf fuel t ss nobt child idx n w nd' r c w',
+  next kb bf fuel (NCall t ss nobt child idx n) w = Ok (nd', r, c, w') -> c = false.
 Proof. exact call_absorbs_cut. Qed.
 
 Example C01_witness :
